@@ -14,6 +14,12 @@ use crate::value::*;
 pub struct Case {
     pub def: TableDef,
     pub lines: Vec<String>,
+    /// further modifiers set through the public ColumnOptions fields (column index, modifier): the combinations the grammar cannot write
+    #[serde(default)]
+    pub extras: Vec<(usize, Modifier)>,
+    /// lines that are not JSON presented to the same definition before the lines of the case (extraction has no memory)
+    #[serde(default)]
+    pub preamble: Vec<(String, u32)>,
 }
 
 pub struct C02;
@@ -275,7 +281,7 @@ impl Property for C02 {
          u64 above i64::MAX, 30-digit integers, floats, 1e400, strings that look like numbers / timestamps / contain escapes and non-ASCII, booleans, null), dropped keys, duplicated keys, subtrees replaced by scalars, \
          an unrelated field nested 30-600 levels deep (one case in twelve), compact or spaced rendering, truncated / trailing-comma / trailing-junk documents, non-JSON lines, top-level arrays and scalars. Oracle: path walk on the harness's own JSON tree and typing without coercion \
          (INT only from integer literals within i64, REAL from any number within 2 ULP, TEXT only from strings, BOOLEAN only from booleans, arrays element-wise, CONVERT parses strings, wrong type -> NULL, absent / invalid -> DEFAULT or NULL), \
-         compared with TableDefinition::extract; plus column independence (removing the other columns does not change a column's value). Non-trivial: a valid-JSON line and a JSON column whose path resolves to a present leaf; distinct by (definition, line)."
+         compared with TableDefinition::extract; one case in five sets further modifiers through the public ColumnOptions fields (CONVERT + DEFAULT, DEFAULT + NOT NULL, TRIM + ...: the combinations the one-modifier grammar cannot write), one case in thirty presents 40 - 1100 lines that are not JSON to the same definition first (extraction has no memory); plus column independence (removing the other columns does not change a column's value). Non-trivial: a valid-JSON line and a JSON column whose path resolves to a present leaf; distinct by (definition, line)."
             .to_string()
     }
 
@@ -402,12 +408,42 @@ impl Property for C02 {
             }
             lines.push(text);
         }
-        Case { def, lines }
+        // one case in five: modifier combinations (CONVERT + DEFAULT, DEFAULT + NOT NULL, TRIM + ...) set through the public options
+        let mut extras = Vec::new();
+        if t.chance(1, 5) {
+            let ncolumns = def.entries.iter().filter(|e| matches!(e, Entry::Column { .. })).count();
+            for _ in 0..1 + t.draw(3) {
+                let ci = t.draw(ncolumns);
+                let ty = def.entries.iter().filter_map(|e| if let Entry::Column { ty, .. } = e { Some(ty.to_ascii_lowercase()) } else { None }).nth(ci).unwrap_or_default();
+                let m = match t.draw(5) {
+                    0 => Modifier::NotNull,
+                    1 => Modifier::Trim,
+                    2 => Modifier::Convert,
+                    _ => match ty.as_str() {
+                        "int" => Modifier::Default(E::Int(-1)),
+                        "real" => Modifier::Default(E::Real("2.5".into())),
+                        "text" => Modifier::Default(E::Str("dflt".into())),
+                        "boolean" => Modifier::Default(E::False),
+                        _ => Modifier::Convert,
+                    },
+                };
+                extras.push((ci, m));
+            }
+        }
+        // one case in thirty: a long run of lines that are not JSON comes first
+        let mut preamble = Vec::new();
+        if t.chance(1, 30) {
+            for _ in 0..1 + t.draw(2) {
+                let filler = *t.pick(&["plain text line", "", "{\"a\": ", "GET /index.html 200", "[1, 2", "   "]);
+                preamble.push((filler.to_string(), *t.pick(&[40u32, 255, 256, 257, 300, 700, 1100])));
+            }
+        }
+        Case { def, lines, extras, preamble }
     }
 
     fn check(&self, case: &Case, _ctx: &Ctx, obs: &mut Obs) -> Result<(), Failure> {
         let text = case.def.text();
-        let compiled = match compile(&case.def) {
+        let mut compiled = match compile(&case.def) {
             Some(c) => c,
             None => {
                 obs.unspecified += 1;
@@ -418,11 +454,32 @@ impl Property for C02 {
             Ok(t) => t,
             Err(e) => return Err(Failure::new(if e.starts_with("panic") { "definition-panic" } else { "definition-rejected" }, format!("`{}`: {}", text, e))),
         };
-        let def = tables.get("t").ok_or_else(|| Failure::new("definition-lost", text.clone()))?;
+        let mut def = tables.get("t").ok_or_else(|| Failure::new("definition-lost", text.clone()))?.clone();
+        apply_extra(&mut def, &mut compiled, &case.extras);
+        let def = &def;
         let colnames = case.def.column_names();
+        let text = if compiled.extra.iter().all(|x| x.is_empty()) { text } else { format!("{}  -- with further options set on the columns: {:?}", text, compiled.extra) };
+        if compiled.extra.iter().any(|x| !x.is_empty()) {
+            obs.label("modifier-combination");
+        }
+
+        // extraction has no memory: whatever came before, a line gives the row it gives on its own
+        for (filler, times) in &case.preamble {
+            obs.label("long-preamble");
+            let expected = model_extract(&compiled, filler);
+            for k in 0..*times {
+                let real = catch(|| def.extract(filler)).map_err(|p| Failure::new(format!("panic: {}", crate::run::panic_class(&p)), format!("extract panicked on {:?} with `{}`: {}", filler, text, p)))?;
+                if let ModelRow::Row(cells) = &expected {
+                    let ok = real.columns.len() == cells.len() && cells.iter().zip(real.columns.iter()).all(|(c, g)| cell_accepts(c, &V::from_real(g)));
+                    if !ok {
+                        return Err(Failure::new("preamble-line", format!("repetition {} of the line {:?} gives {:?}, expected {:?}\n  definition: {}", k + 1, filler, real.columns, cells, text)));
+                    }
+                }
+            }
+        }
 
         // single-column definitions for the independence check (columns without NOT NULL)
-        let mut singles: Vec<(usize, sqlgrep::Tables)> = Vec::new();
+        let mut singles: Vec<(usize, sqlgrep::data_model::TableDefinition)> = Vec::new();
         for (ci, e) in case.def.entries.iter().filter(|e| matches!(e, Entry::Column { .. })).enumerate() {
             if let Entry::Column { modifier, .. } = e {
                 if matches!(modifier, Some(Modifier::NotNull)) {
@@ -443,8 +500,18 @@ impl Property for C02 {
                 }
             }
             let d = TableDef { name: "t".into(), entries };
+            if compiled.extra[ci].iter().any(|m| matches!(m, Modifier::NotNull)) {
+                continue;
+            }
             if let Ok(tb) = build_tables(&d.text()) {
-                singles.push((ci, tb));
+                if let Some(mut d1) = tb.get("t").cloned() {
+                    if let Some(last) = d1.columns.last_mut() {
+                        for m in &compiled.extra[ci] {
+                            set_option(last, m);
+                        }
+                    }
+                    singles.push((ci, d1));
+                }
             }
         }
 
@@ -514,8 +581,7 @@ impl Property for C02 {
                         }
                     }
                     // column independence
-                    for (ci, tb) in &singles {
-                        let d1 = tb.get("t").unwrap();
+                    for (ci, d1) in &singles {
                         let r1 = catch(|| d1.extract(line)).map_err(|p| Failure::new(format!("panic: {}", crate::run::panic_class(&p)), format!("extract panicked: {}\n  {}", p, context)))?;
                         // the single-column row: inline columns kept before it come first; the column itself is last
                         if let (Some(alone), Some(full)) = (r1.columns.last(), real.columns.get(*ci)) {
